@@ -14,6 +14,8 @@ import (
 type FlowSpec struct {
 	// IsSource: v is an acceptable origin.
 	IsSource func(v ssa.Value) bool
+	// IsSourceIn (optional): like IsSource, with the frame the value lives in.
+	IsSourceIn func(v ssa.Value, fr *Frame) bool
 	// Through: calls whose result is considered derived from (some of) their arguments:
 	// returns the argument indices to follow (nil = opaque call, not followed).
 	Through func(c ssa.CallInstruction) []int
@@ -103,6 +105,12 @@ func helperReturns(fn *ssa.Function, idx int) []ssa.Value {
 				continue
 			}
 		}
+		// the comma-ok idiom: `return zero, false`
+		if last := len(r.Results) - 1; last != idx && last >= 1 && isBoolConst(r.Results[last], false) {
+			if _, isC := v.(*ssa.Const); isC {
+				continue
+			}
+		}
 		out = append(out, v)
 	}
 	return out
@@ -159,7 +167,10 @@ func derives(v ssa.Value, s FlowSpec, seen map[seenKey]bool, depth int, fr *Fram
 	if v == nil || depth > 60 {
 		return false
 	}
-	if s.IsSource(v) {
+	if s.IsSource != nil && s.IsSource(v) {
+		return true
+	}
+	if s.IsSourceIn != nil && s.IsSourceIn(v, fr) {
 		return true
 	}
 	if seen[seenKey{v, fr}] {
@@ -571,4 +582,68 @@ func RegionOf(fn *ssa.Function, stop func(*ssa.Function) bool) []*ssa.Function {
 
 func exportedFunc(f *ssa.Function) bool {
 	return f.Object() != nil && f.Object().Exported()
+}
+
+// StructFieldValue finds, for a struct value v built from a literal (directly, or by a
+// repository helper returning the literal), what is stored into the named field; the result
+// is resolved through helper parameters to the caller's argument. found=false when the
+// struct is not built that way; val=nil when the field is never set (zero value).
+func StructFieldValue(v ssa.Value, fr *Frame, field string, depth int) (val ssa.Value, vfr *Frame, found bool) {
+	if v == nil || depth > 8 {
+		return nil, nil, false
+	}
+	resolve := func(x ssa.Value, f *Frame) (ssa.Value, *Frame) {
+		for i := 0; i < 6; i++ {
+			p, ok := x.(*ssa.Parameter)
+			if !ok {
+				break
+			}
+			arg, ok := f.ArgOf(p)
+			if !ok {
+				break
+			}
+			x, f = arg, f.Parent
+		}
+		return x, f
+	}
+	switch x := v.(type) {
+	case *ssa.MakeInterface:
+		return StructFieldValue(x.X, fr, field, depth+1)
+	case *ssa.ChangeInterface:
+		return StructFieldValue(x.X, fr, field, depth+1)
+	case *ssa.UnOp:
+		if x.Op == token.MUL {
+			return StructFieldValue(x.X, fr, field, depth+1)
+		}
+	case *ssa.Alloc:
+		st := derefStruct(x.Type())
+		if st == nil {
+			return nil, nil, false
+		}
+		for _, ref := range *x.Referrers() {
+			fa, ok := ref.(*ssa.FieldAddr)
+			if !ok || st.Field(fa.Field).Name() != field {
+				continue
+			}
+			for _, r2 := range *fa.Referrers() {
+				if s, ok := r2.(*ssa.Store); ok && s.Addr == ssa.Value(fa) {
+					rv, rf := resolve(s.Val, fr)
+					return rv, rf, true
+				}
+			}
+		}
+		return nil, fr, true
+	case *ssa.Call:
+		if callee := Followable(x, fr); callee != nil {
+			nf := &Frame{Site: x, Callee: callee, Parent: fr}
+			for _, rv := range helperReturns(callee, 0) {
+				if val, vfr, ok := StructFieldValue(rv, nf, field, depth+1); ok {
+					return val, vfr, true
+				}
+			}
+		}
+	case *ssa.Extract:
+		return StructFieldValue(x.Tuple, fr, field, depth+1)
+	}
+	return nil, nil, false
 }
